@@ -10,7 +10,7 @@ from fractions import Fraction
 import numpy as np
 from common import *
 
-IMPORTS = ("From CV Require Import Base.Cmp Base.QcLin Model.C17_TP Model.C17_TPR Model.C17_More. "
+IMPORTS = ("From CV Require Import Base.Cmp Base.QcLin Model.C17_TP Model.C17_TPR Model.C17_More Model.C17_Encl. "
            "From Coq Require Import QArith Qcanon Reals List String. Import ListNotations. "
            "From Interval Require Import Tactic.")
 RULE = ("every test problem x option lattice at small dim: Deconvolution1D (5 BC x custom integer PSF symmetric/asymmetric/"
